@@ -5,6 +5,28 @@ INTERP_MODELLED = "modelled rather than verified: interpreter.go, evaluate_expr.
 SCRIPTS_RULE = "scripts from the grammar-complete generator (harness/gen.go: every alternative of every rule, nesting depth <= 3 (thorough: <= 5), account pool of 6 names + world so that repetition and aliasing through variables are frequent, balances incl. zero/negative/>2^64, amounts centred on the supply threshold), run through numscript.Parse(..).Run against the harness's stores; "
 
 PROPS = {
+    "C01": {
+        "rule": SCRIPTS_RULE + "profile: up to 5 statements (sends, send-all, saves), plus the directed templates repeatDraw (an account drawn several times with others in between) and saveThenUse. Non-trivial: the run succeeds with at least one posting and every source evaluates; distinct by hash.",
+        "assumptions": ["the theorem is about run_stmts started from the balance sheet itself (C10 relates it to executions against a store)",
+                        "theorem hypothesis eval_stmts: every expression of every send statement evaluates; scripts that succeed although an unreached destination expression would not evaluate are covered by the correspondence only"],
+        "trusted_base": [INTERP_MODELLED],
+    },
+    "C02": {
+        "rule": SCRIPTS_RULE + "profile: 25% negative caps, 15% hostile account-variable values (empty, <kept>, spaces, non-ASCII), directed templates keptSpan and repeatDraw. Non-trivial: success with at least one posting; distinct by hash.",
+        "assumptions": ["'real account' is checked on observations with the ACCOUNT grammar (valid_account_name); the theorem proves positivity, asset grouping and absence of the kept marker"],
+        "trusted_base": [INTERP_MODELLED],
+    },
+    "C08": {
+        "rule": SCRIPTS_RULE + "profile: scripts that start with 1-3 save statements aimed at the accounts of the following sends (amounts around the balance: below, equal, above, `*`), a third from the directed template saveThenUse (save, optional refill, use with/without overdraft). Non-trivial: at least one leading save evaluates and the run succeeds; distinct by hash.",
+        "assumptions": ["the judged bound is for leading saves (the theorem C08_reserve_kept covers saves anywhere, through the cache <= ledger invariant)"],
+        "trusted_base": [INTERP_MODELLED],
+    },
+    "C12": {
+        "rule": SCRIPTS_RULE + "profile: 6% ill-typed expression positions, 12% garbage variable texts, hostile accounts, 10% bad allotments; FAULT ENUMERATION: for every generated script, one extra execution per store call it makes with an error injected at that call. Every case is non-trivial; distinct by hash.",
+        "assumptions": ["'complete AST' (theorem hypothesis) is what an error-free parse yields: counted on every dumped AST by the correspondence (a nil node makes the model predict the panic)",
+                        "the store answers a balance query with balances or an error (store_wellbehaved)"],
+        "trusted_base": [INTERP_MODELLED, "Go runtime panics outside the modelled sites (e.g. inside math/big) are observed by recover() only"],
+    },
     "C03": {
         "rule": SCRIPTS_RULE + "profile: one fixed-amount send (optionally preceded by saves). Non-trivial: source and destination trees evaluate and the send reaches the draw; distinct by hash of the case.",
         "assumptions": ["Spec/Greedy.v (draw_exact) is what 'the sources, drawn in their declared order within their balances, caps and overdraft limits, can supply' means",
